@@ -26,7 +26,9 @@ def main():
             "evidence_file": "evidence/%s.json" % pid,
             "replay_cmd_template": "./check %s --replay {path}" % pid,
             "engine": getattr(m, "ENGINE", "vf.sysprop"),
-            "level_claimed": {"category": "exploration", "text": getattr(m, "LEVEL_TEXT", m.RULE[:600]), "design_ref": "DESIGN.md section 5 (%s)" % pid},
+            "level_claimed": {"category": "exploration",
+                              "text": getattr(m, "LEVEL_TEXT", m.RULE[:600]) + "  Sub-checks: " + "; ".join("%s (%s)" % (x.name, x.kind) for x in m.subchecks("quick")) + ".",
+                              "design_ref": "DESIGN.md section 5 (%s) and section 10.1 (sub-check table)" % pid},
             "level_note": "; ".join(getattr(m, "ASSUMPTIONS", [])) or "trusted base: CPython, Hypothesis, vf.observe ground-truth snapshot",
             "technique": getattr(m, "TECHNIQUE", "property-based testing (Hypothesis-generated networks, invariant monitor after every event)"),
         })
